@@ -27,6 +27,10 @@ EbDrift(r) == (r.e = "EbProbe" /\ r.mode \notin {"kd", "ia"}) =>
 \* with the predicted index
 OrderDrift(r) == (r.e = "EbProbe" /\ r.mode \in {"std", "val"} /\ r.natt = 1 /\ r.pred = "acc" /\ r.ok /\ r.trav = "" /\ Len(r.pred_vidx) = r.np /\ Len(r.vidx) = r.np) =>
    Drift(\A p \in 1..r.np : r.pred_vidx[p] # -1 => r.vidx[p] = r.pred_vidx[p], "EbDecoder traversal order")
+\* natt = 2: the same connectivity with the position attribute coded by the parallelogram scheme under the wrap transform (EbDecoder!ParaPos): every
+\* reported point decodes to the predicted position
+ParaDrift(r) == (r.e = "EbProbe" /\ r.mode \in {"std", "val"} /\ r.natt = 2 /\ r.pred = "acc" /\ r.ok /\ Len(r.pred_pts) = r.np /\ Len(r.pts) = r.np) =>
+   Drift(\A p \in 1..r.np : r.pred_pts[p] # <<>> => r.pts[p] = r.pred_pts[p], "EbDecoder parallelogram prediction")
 \* kd-tree rows (module KdTree): the real encoder writes the bytes assembled from the model's request lists (honest rows); the real decoder accepts
 \* exactly what the model accepts -- nothing behind the kd-tree payload can refuse a uint32 attribute -- and returns the model's points in the model's order
 \* integer attribute rows (module IntAttr, mode "ia"): the same clause; rows the model leaves open ("any:...") are exempt
@@ -39,6 +43,6 @@ LkDrift(r) == (r.e = "EbProbe" /\ r.mode \in {"lkd", "lkq"} /\ r.pk = "acc") => 
 NestDrift(r) == r.e = "Nest" => Drift(r.ok = (r.depth - 1 <= 1000), "Metadata nesting limit")
 C18(r) == (r.e = "Probe" /\ r.allocs) => AllocBounded(r)
 Check(r) == CASE Prop = "C02" -> C02(r) [] Prop = "C03" -> C03(r) [] Prop = "C18" -> C18(r) [] OTHER -> FALSE
-Conforms == ti <= N => (Check(Recs[ti]) /\ EbDrift(Recs[ti]) /\ OrderDrift(Recs[ti]) /\ KdDrift(Recs[ti]) /\ LkDrift(Recs[ti]) /\ NestDrift(Recs[ti]))
+Conforms == ti <= N => (Check(Recs[ti]) /\ EbDrift(Recs[ti]) /\ OrderDrift(Recs[ti]) /\ ParaDrift(Recs[ti]) /\ KdDrift(Recs[ti]) /\ LkDrift(Recs[ti]) /\ NestDrift(Recs[ti]))
 Spec == ShardInit /\ [][ShardNext]_tvars
 =============================================================================
